@@ -87,8 +87,15 @@ def check_fn(ctx, facts, d, rule, ch=CH, depth=0, seen=None):
                 continue
             # history of mutating calls on this buffer before the site
             hist = [x for x in evs[:k] if x[2] and norm_tag(tag_of(x[2][0]) or '') == buf and short(x[1]) in MUTATORS]
-            if len(hist) >= 2 and short(hist[-2][1]) == 'clear' and short(hist[-1][1]) == 'resize' \
-                    and isinstance(strip(hist[-1][2][2]), I) and strip(hist[-1][2][2]).n == 0:
+            def zero_arg(x, k):
+                return len(x[2]) > k and isinstance(strip(x[2][k]), I) and strip(x[2][k]).n == 0
+            if len(hist) >= 2 and short(hist[-2][1]) == 'clear' and short(hist[-1][1]) == 'resize' and zero_arg(hist[-1], 2):
+                continue
+            # a fresh empty vector (Vec::new / with_capacity) grown once with zeros
+            if buf.startswith(('call:new@', 'call:with_capacity@')) and len(hist) == 1 and short(hist[0][1]) == 'resize' and zero_arg(hist[0], 2):
+                continue
+            # explicitly zero-filled right before the call
+            if hist and short(hist[-1][1]) == 'fill' and zero_arg(hist[-1], 1):
                 continue
             if not hist and buf in argnames:
                 params.add(argnames[buf])
